@@ -3,6 +3,7 @@ use crate::infra::*;
 
 pub mod pure;
 pub mod envp;
+pub mod memfs;
 
 pub struct Prop {
     pub id: &'static str,
@@ -22,6 +23,7 @@ pub fn registry() -> Vec<Prop> {
     let mut v = vec![];
     v.extend(pure::props());
     v.extend(envp::props());
+    v.extend(memfs::props());
     v
 }
 
